@@ -23,7 +23,7 @@ def one(d, cache):
 
 def main():
     jobs = int(sys.argv[1]) if len(sys.argv) > 1 else 6
-    ds = sorted(x for x in glob.glob(os.path.join(VERIF, 'seeded', 'C*')) if os.path.exists(os.path.join(x, 'patch.diff')))
+    ds = sorted(x for x in glob.glob(os.path.join(VERIF, 'seeded', os.environ.get('DP_SEED_GLOB', 'C*'))) if os.path.exists(os.path.join(x, 'patch.diff')))
     base = tempfile.mkdtemp(prefix='dpseed_cache_', dir='/tmp')
     try:
         q = queue.Queue()
